@@ -52,6 +52,35 @@ func env() []string {
 	return append(os.Environ(), "GOFLAGS=-mod=mod", "GOPROXY=off", "GOSUMDB=off", "GOTOOLCHAIN=local", "CGO_ENABLED=0")
 }
 
+// crashReport turns the log of a worker that crashed inside the code under test into a report with one violation.
+func crashReport(id, tier, logPath string) *report.Report {
+	b, err := os.ReadFile(logPath)
+	if err != nil {
+		return nil
+	}
+	text := string(b)
+	at := strings.Index(text, "panic: ")
+	if k := strings.Index(text, "fatal error: "); k >= 0 && (at < 0 || k < at) {
+		at = k
+	}
+	if at < 0 || !strings.Contains(text[at:], "github.com/tailscale/setec/") {
+		return nil
+	}
+	first := text[at:]
+	if j := strings.IndexByte(first, '\n'); j >= 0 {
+		first = first[:j]
+	}
+	// the goroutine that crashed: up to the first blank line after the header
+	excerpt := text[at:]
+	if len(excerpt) > 3000 {
+		excerpt = excerpt[:3000]
+	}
+	r := &report.Report{Property: id, Tier: tier}
+	sec := r.Add(&report.Section{Name: "worker-crash", Engine: "enum"})
+	r.Violate(sec.Name, "crash-in-code-under-test: "+report.Clip(first, 160), "the code under test brought the process down ("+first+"):\n"+excerpt, nil)
+	return r
+}
+
 func die(code int, format string, a ...any) {
 	fmt.Fprintf(os.Stderr, "check: "+format+"\n", a...)
 	os.Exit(code)
@@ -191,6 +220,14 @@ func main() {
 			err := w.Run()
 			b, rerr := os.ReadFile(out)
 			if rerr != nil {
+				// The worker died without a verdict. If its log shows a Go panic or fatal error with the code
+				// under test on the stack (a goroutine of that code panicked, which would take a server or a
+				// client process down just the same), that is what this check has to report; anything else
+				// is a failure of the machinery.
+				if r := crashReport(id, tier, logf.Name()); r != nil {
+					reports[i] = r
+					return
+				}
 				fails[i] = fmt.Sprintf("shard %d produced no report (%v); see %s", i, err, logf.Name())
 				return
 			}
